@@ -2,6 +2,7 @@ package main
 
 import (
 	"fmt"
+	"regexp"
 	"strings"
 	"unicode"
 
@@ -18,12 +19,22 @@ import (
 //	15 KebabCase s               16 for i, r := range s      17 string([]rune) (s = runes)
 //	18 Unwrap(Wrap(s,tok),tok)   19 Snake, Snake(Snake), Kebab, Kebab(Kebab)
 //	20 unicode.ToLower(r)        21 unicode.ToUpper(r)        (s = [r])
+//	the model's hand-written library functions against the Go library (no gogu code runs):
+//	22 regexp [-_&]+ ReplaceAllString(s," ")   23 regexp [a-zö][A-ZÖ]+ FindAllStringIndex(s,-1)
+//	24 strings.TrimSpace(s)      25 strings.Split(s," ")     26 strings.Index(s,t), strings.LastIndex(s,t)
 //
 // output: enc_res of the returned string(s): 0 len bytes... | 2 (panic)
 var c15Names = map[int]string{1: "Substr", 2: "SplitAtIndex", 3: "Pad", 4: "PadLeft", 5: "PadRight", 6: "Wrap",
 	7: "Unwrap", 8: "WrapAllRune", 9: "ReverseStr", 10: "ToLower", 11: "ToUpper", 12: "Capitalize", 13: "CamelCase",
 	14: "SnakeCase", 15: "KebabCase", 16: "range", 17: "string([]rune)", 18: "Unwrap(Wrap)", 19: "CaseLaws",
-	20: "unicode.ToLower", 21: "unicode.ToUpper"}
+	20: "unicode.ToLower", 21: "unicode.ToUpper", 22: "regexp.ReplaceAll[-_&]+", 23: "regexp.FindAll[a-zö][A-ZÖ]+",
+	24: "strings.TrimSpace", 25: "strings.Split", 26: "strings.Index/LastIndex"}
+
+// the two regular expressions of string.go, as the code writes them
+var (
+	c15RxSeps  = regexp.MustCompile("[-_&]+")
+	c15RxLowUp = regexp.MustCompile("[a-zö][A-ZÖ]+")
+)
 
 func c15OkStr(s string) []int64 {
 	out := []int64{0, int64(len(s))}
@@ -143,6 +154,27 @@ func execC15(in []int64) []int64 {
 		twice(func(x string) string { return gogu.SnakeCase(x) })
 		twice(func(x string) string { return gogu.KebabCase(x) })
 		return out
+	case 22:
+		return c15OkStr(c15RxSeps.ReplaceAllString(s, " "))
+	case 23:
+		idx := c15RxLowUp.FindAllStringIndex(s, -1)
+		out := []int64{int64(len(idx))}
+		for _, m := range idx {
+			out = append(out, int64(m[0]), int64(m[1]))
+		}
+		return out
+	case 24:
+		return c15OkStr(strings.TrimSpace(s))
+	case 25:
+		parts := strings.Split(s, " ")
+		w := (&W{}).Int(0).Int(len(parts))
+		for _, p := range parts {
+			w.Bytes(p)
+		}
+		return w.Out()
+	case 26:
+		tok := r.Bytes()
+		return []int64{int64(strings.Index(s, tok)), int64(strings.LastIndex(s, tok))}
 	}
 	return []int64{-1}
 }
@@ -165,7 +197,7 @@ func describeC15(in []int64) string {
 	case 3, 4, 5:
 		size := r.Int()
 		return fmt.Sprintf("%s(%q, %d, %q)", c15Names[fn], s, size, r.Bytes())
-	case 6, 7, 8, 18:
+	case 6, 7, 8, 18, 26:
 		return fmt.Sprintf("%s(%q, %q)", c15Names[fn], s, r.Bytes())
 	}
 	return fmt.Sprintf("%s(%q)", c15Names[fn], s)
@@ -181,6 +213,16 @@ func c15StringsOver(alpha []string, maxLen int, f func(s string, nsym int)) {
 		f(sb.String(), len(seq))
 	})
 }
+
+// cased runes above U+00FF of the model's oracle table (C15_Model.tbl_extra, kept in step):
+// 2-, 3- and 4-byte letters; ſ K İ ı Ⱥ ⱥ ẞ change their encoded width under a case mapping
+var c15ExtraRunes = []rune{0x3C3, 0x3A3, 0x3C2, 0x17F, 0x212A, 0x130, 0x131, 0x23A, 0x2C65, 0xFF21, 0xFF41,
+	0x10400, 0x10428, 0x39C, 0x3BC, 0x178, 0x1E9E, 0x416, 0x436, 0x1E00, 0x1E01}
+
+const (
+	c15MaxInt = int(^uint(0) >> 1)
+	c15MinInt = -c15MaxInt - 1
+)
 
 func genC15(g *Gen) {
 	emit := func(stream string, nt bool, w *W) {
@@ -198,13 +240,23 @@ func genC15(g *Gen) {
 			tokens = append(tokens, t)
 		}
 	})
-	L := g.Pick(4, 5)
+	L := g.Pick(4, 5)  // strings x tokens, SplitAtIndex
+	L1 := g.Pick(5, 6) // the one-argument functions and the byte-arithmetic ones (the property's bound is 5)
 
 	// --- exhaustive: content-sensitive functions over the full alphabet ---
-	c15StringsOver(alpha, L, func(s string, nsym int) {
+	c15StringsOver(alpha, L1, func(s string, nsym int) {
 		n := len(s)
 		multi := n != nsym // contains a multi-byte rune
 		g.Count(fmt.Sprintf("len=%d", n))
+		for _, fn := range []int{9, 10, 11, 12, 16} {
+			emit("exhaustive", multi || n > 1, (&W{}).Int(fn).Bytes(s))
+		}
+		for _, fn := range []int{13, 14, 15, 19} {
+			emit("exhaustive", nsym > 1, (&W{}).Int(fn).Bytes(s))
+		}
+		if nsym > L {
+			return
+		}
 		for idx := -3; idx <= n+3; idx++ {
 			emit("exhaustive", idx >= 0 && idx < n, (&W{}).Int(2).Bytes(s).Int(idx))
 		}
@@ -214,39 +266,52 @@ func genC15(g *Gen) {
 			emit("exhaustive", inside, (&W{}).Int(7).Bytes(s).Bytes(t))
 			emit("exhaustive", n > 1, (&W{}).Int(8).Bytes(s).Bytes(t))
 			emit("exhaustive", inside, (&W{}).Int(18).Bytes(s).Bytes(t))
+			if nsym <= 3 {
+				emit("exhaustive", inside, (&W{}).Int(26).Bytes(s).Bytes(t))
+			}
 			if inside {
 				g.Count("token-occurs-in-text")
 			}
 			if strings.HasPrefix(s, t) != strings.HasSuffix(s, t) {
 				g.Count("token-at-one-end-only")
 			}
-		}
-		for _, fn := range []int{9, 10, 11, 12, 16} {
-			emit("exhaustive", multi || n > 1, (&W{}).Int(fn).Bytes(s))
-		}
-		for _, fn := range []int{13, 14, 15, 19} {
-			emit("exhaustive", nsym > 1, (&W{}).Int(fn).Bytes(s))
+			if n < 2*len(t) && n > len(t) && strings.HasPrefix(s, t) && strings.HasSuffix(s, t) {
+				g.Count("token-overlaps-itself-at-both-ends")
+			}
 		}
 	})
-	// --- exhaustive: Substr and Pad* over {a,-,é}: every offset/length/size in [-len-3, len+3] ---
-	c15StringsOver(alphaArith, L, func(s string, nsym int) {
+	// --- exhaustive: Substr and Pad* over {a,-,é}: every offset/length in [-len-3, len+3], every
+	//     size in [len-3, len+9] (from len+4 on Pad repeats 2-byte tokens, from len+8 4-byte ones) ---
+	c15StringsOver(alphaArith, L1, func(s string, nsym int) {
 		n := len(s)
 		for off := -n - 3; off <= n+3; off++ {
 			for ln := -n - 3; ln <= n+3; ln++ {
 				emit("exhaustive", n > 0, (&W{}).Int(1).Bytes(s).Int(off).Int(ln))
 			}
 		}
-		for size := n - 3; size <= n+3; size++ {
+		if nsym > L {
+			return
+		}
+		for size := n - 3; size <= n+9; size++ {
 			for _, t := range tokens {
 				for _, fn := range []int{3, 4, 5} {
 					emit("exhaustive", size > n, (&W{}).Int(fn).Bytes(s).Int(size).Bytes(t))
 				}
+				if size > n && len(t) > 1 && (size-n)/2 >= len(t) {
+					g.Count("Pad-repeats-multibyte-token")
+				}
 			}
 		}
 	})
-	// --- exhaustive: the case styles over the word alphabet with '&', and with the regexp's ö/Ö ---
-	c15StringsOver([]string{"a", "B", "1", " ", "-", "_", "&"}, L, func(s string, nsym int) {
+	// --- exhaustive: the case styles over the word alphabet with '&', over the letters at the ends
+	//     of the ranges, and with the regexp's ö/Ö ---
+	c15StringsOver([]string{"a", "B", "1", " ", "-", "_", "&"}, L1, func(s string, nsym int) {
 		for _, fn := range []int{13, 14, 15, 19} {
+			emit("exhaustive", nsym > 1, (&W{}).Int(fn).Bytes(s))
+		}
+	})
+	c15StringsOver([]string{"z", "Z", "A", "0", "9", "_"}, L, func(s string, nsym int) {
+		for _, fn := range []int{10, 11, 12, 13, 14, 15, 19} {
 			emit("exhaustive", nsym > 1, (&W{}).Int(fn).Bytes(s))
 		}
 	})
@@ -255,16 +320,26 @@ func genC15(g *Gen) {
 			emit("exhaustive", nsym > 1, (&W{}).Int(fn).Bytes(s))
 		}
 	})
-	// --- exhaustive: every 1- and 2-byte string through the range loop (Utf8.decode) ---
+	// --- exhaustive: every 1- and 2-byte string through the range loop (Utf8.decode); every single
+	//     byte, alone and after 'a', through the rune-wise functions ---
 	for a := 0; a < 256; a++ {
-		emit("exhaustive", a >= 128, (&W{}).Int(16).Bytes(string([]byte{byte(a)})))
+		one := string([]byte{byte(a)})
+		emit("exhaustive", a >= 128, (&W{}).Int(16).Bytes(one))
 		for b := 0; b < 256; b++ {
 			emit("exhaustive", a >= 128 || b >= 128, (&W{}).Int(16).Bytes(string([]byte{byte(a), byte(b)})))
 		}
+		for _, fn := range []int{9, 10, 11, 12} {
+			emit("exhaustive", true, (&W{}).Int(fn).Bytes(one))
+			emit("exhaustive", true, (&W{}).Int(fn).Bytes("a"+one))
+		}
+		emit("exhaustive", true, (&W{}).Int(8).Bytes("a"+one).Bytes("-"))
 	}
-	// the oracle table against package unicode on its whole domain of exactness that the
-	// generators use: U+0000..U+00FF and the caseless runes below
+	// the oracle table against package unicode on the whole domain the generators use:
+	// U+0000..U+00FF, the cased runes of tbl_extra and the caseless runes below
 	extraRunes := []int{0xFFFD, 0x20AC, 0x2003, 0x3000, 0x1F600, 0x4E16}
+	for _, x := range c15ExtraRunes {
+		extraRunes = append(extraRunes, int(x))
+	}
 	for rr := 0; rr < 256; rr++ {
 		emit("exhaustive", true, (&W{}).Int(20).Ints([]int{rr}))
 		emit("exhaustive", true, (&W{}).Int(21).Ints([]int{rr}))
@@ -273,23 +348,68 @@ func genC15(g *Gen) {
 		emit("exhaustive", true, (&W{}).Int(20).Ints([]int{rr}))
 		emit("exhaustive", true, (&W{}).Int(21).Ints([]int{rr}))
 	}
+	// --- exhaustive: letters outside ASCII ALONE (no ASCII letter in the string) and next to ASCII:
+	//     é É ö Ö ß µ ÿ and every cased rune of tbl_extra ---
+	nonASCII := []string{"é", "É", "ö", "Ö", "ß", "µ", "ÿ", "×"}
+	for _, x := range c15ExtraRunes {
+		nonASCII = append(nonASCII, string(x))
+	}
+	for _, x := range nonASCII {
+		for _, s := range []string{x, x + x, "1" + x, x + " ", "-" + x + "_", "a" + x, x + "a", "B" + x, x + "B", x + "\xff" + x} {
+			g.Count("non-ASCII-letter-input")
+			for _, fn := range []int{9, 10, 11, 12, 13, 14, 15, 16} {
+				emit("exhaustive", true, (&W{}).Int(fn).Bytes(s))
+			}
+			emit("exhaustive", true, (&W{}).Int(8).Bytes(s).Bytes("é"))
+		}
+	}
 	// string([]rune): boundaries of every encoding length, surrogates, out of range
 	for _, rr := range []int{-1, 0, 0x7F, 0x80, 0x7FF, 0x800, 0xD7FF, 0xD800, 0xDFFF, 0xE000, 0xFFFD, 0xFFFF, 0x10000, 0x10FFFF, 0x110000} {
 		emit("exhaustive", true, (&W{}).Int(17).Ints([]int{rr}))
 		emit("exhaustive", true, (&W{}).Int(17).Ints([]int{97, rr, 98}))
 	}
+	// --- exhaustive: tokens that overlap themselves (a proper border), up to 7 bytes: every prefix
+	//     of token^4, bare and after one other byte, through Unwrap / Unwrap(Wrap) / Index+LastIndex ---
+	for _, t := range []string{"aa", "aaa", "aba", "abab", "abaab", "--", "éé", "\xa9\xc3\xa9", "a-a-a", "ééé", "abcabca"} {
+		rep := strings.Repeat(t, 4)
+		for k := 0; k <= len(rep); k++ {
+			for _, s := range []string{rep[:k], "x" + rep[:k], rep[:k] + "x"} {
+				ov := len(s) > len(t) && len(s) < 2*len(t) && strings.HasPrefix(s, t) && strings.HasSuffix(s, t)
+				if ov {
+					g.Count("token-overlaps-itself-at-both-ends")
+				}
+				emit("exhaustive", true, (&W{}).Int(7).Bytes(s).Bytes(t))
+				emit("exhaustive", true, (&W{}).Int(18).Bytes(s).Bytes(t))
+				emit("exhaustive", true, (&W{}).Int(26).Bytes(s).Bytes(t))
+			}
+		}
+	}
+	// --- exhaustive: the model's hand-written scanners against the Go library itself: the two
+	//     regular expressions, strings.Split(_, " ") and strings.TrimSpace ---
+	c15StringsOver([]string{"a", "B", "ö", "Ö", "-", "&", " ", "\xc3", "1"}, L, func(s string, nsym int) {
+		for _, fn := range []int{22, 23, 25} {
+			emit("exhaustive", nsym > 1, (&W{}).Int(fn).Bytes(s))
+		}
+	})
+	c15StringsOver([]string{"a", " ", "\t", "\u00a0", "\u0085", "\u2003", "\u3000", "\xc2", "\xe2\x80"}, L, func(s string, nsym int) {
+		emit("exhaustive", nsym > 1, (&W{}).Int(24).Bytes(s))
+	})
 	g.Exhaustive("exhaustive")
 
 	// --- seeded random longer inputs ---
 	// items whose concatenations decode only to runes inside the oracle table's domain:
-	// ASCII, 2-byte Latin-1 (lead C2/C3), complete caseless 3/4-byte runes, and bytes that are
-	// invalid wherever they stand (C0 C1 F5..FF) or are continuation bytes
+	// ASCII, 2-byte Latin-1 (lead C2/C3), the cased runes of tbl_extra, complete caseless 3/4-byte
+	// runes, and bytes that are invalid wherever they stand (C0 C1 F5..FF) or are continuation bytes
 	var items []string
 	for c := 0; c < 128; c++ {
 		items = append(items, string([]byte{byte(c)}))
 	}
-	wordy := []string{"a", "b", "z", "A", "B", "Z", "0", "9", " ", " ", "-", "_", "&", "é", "É", "ö", "Ö", "foo", "Bar", "BAZ", "\t", "\n", " ", " "}
+	wordy := []string{"a", "b", "z", "A", "B", "Z", "0", "9", " ", " ", "-", "_", "&", "é", "É", "ö", "Ö", "foo", "Bar", "BAZ", "\t", "\n", " ", " "}
 	bytey := []string{"\x80", "\xbf", "\xc2", "\xc3", "\xc0", "\xc1", "\xf5", "\xff", "€", "\U0001F600", "�", "世", "ß", "µ", "ÿ", "×", "\u00a0", "\u0085", "\u2003", "\u3000"}
+	var cased []string
+	for _, x := range c15ExtraRunes {
+		cased = append(cased, string(x))
+	}
 	randStr := func(maxItems int, pools ...[]string) string {
 		var sb strings.Builder
 		k := g.Rng.Intn(maxItems + 1)
@@ -316,6 +436,9 @@ func genC15(g *Gen) {
 	nr := g.Pick(6000, 60000)
 	for i := 0; i < nr; i++ {
 		fn := 1 + g.Rng.Intn(19)
+		if g.Rng.Intn(12) == 0 {
+			fn = 22 + g.Rng.Intn(5)
+		}
 		w := (&W{}).Int(fn)
 		switch fn {
 		case 1:
@@ -332,7 +455,7 @@ func genC15(g *Gen) {
 				tok = "."
 			}
 			w.Bytes(s).Int(len(s) - 3 + g.Rng.Intn(30)).Bytes(tok)
-		case 6, 7, 8, 18:
+		case 6, 7, 8, 18, 26:
 			tok := randStr(3, wordy, bytey)
 			s := randStr(12, wordy, bytey)
 			switch g.Rng.Intn(4) { // make wrapped / half-wrapped / token-inside inputs likely
@@ -345,10 +468,10 @@ func genC15(g *Gen) {
 			}
 			w.Bytes(s).Bytes(tok)
 		case 9, 10, 11, 12:
-			w.Bytes(randStr(16, wordy, bytey, items))
+			w.Bytes(randStr(16, wordy, bytey, items, cased))
 		case 13, 14, 15, 19:
 			if g.Rng.Intn(4) == 0 {
-				w.Bytes(randStr(16, wordy, bytey))
+				w.Bytes(randStr(16, wordy, bytey, cased))
 			} else {
 				w.Bytes(randStr(16, wordy))
 			}
@@ -356,7 +479,7 @@ func genC15(g *Gen) {
 			if g.Rng.Intn(2) == 0 {
 				w.Bytes(randBytes(12))
 			} else {
-				w.Bytes(randStr(10, wordy, bytey))
+				w.Bytes(randStr(10, wordy, bytey, cased))
 			}
 		case 17:
 			k := g.Rng.Intn(8)
@@ -376,8 +499,245 @@ func genC15(g *Gen) {
 				}
 			}
 			w.Ints(rs)
+		case 22, 23, 24, 25:
+			if g.Rng.Intn(2) == 0 {
+				w.Bytes(randBytes(14))
+			} else {
+				w.Bytes(randStr(14, wordy, bytey, cased))
+			}
 		}
 		emit("random", true, w)
+	}
+
+	// --- extreme: arguments at the ends of the int range and around 2^31, 2^32, 2^53, 2^62 ---
+	// (Substr adds offset and length: the model carries the 64-bit wrap-around; SplitAtIndex only
+	// compares; Pad* with a giant positive size would really allocate it: only sizes <= len there)
+	var ext []int
+	for k := 0; k <= 5; k++ {
+		ext = append(ext, c15MaxInt-k, c15MinInt+k)
+	}
+	for _, e := range []int{31, 32, 53, 62} {
+		p := 1 << uint(e)
+		ext = append(ext, p, -p, p-1, -p-1, p+1, -p+1)
+	}
+	small := []int{-5, -4, -3, -2, -1, 0, 1, 2, 3, 4, 5}
+	isExt := func(x int) bool { return x > 1<<30 || x < -(1<<30) }
+	extStrs := []string{"", "a", "abc", "aé-", strings.Repeat("xyé", 100)}
+	both := append(append([]int{}, ext...), small...)
+	for _, s := range extStrs {
+		n := len(s)
+		near := []int{n - 1, n, n + 1, -n, -n - 1, -n + 1}
+		offs := append(append([]int{}, both...), near...)
+		for _, off := range offs {
+			for _, ln := range offs {
+				if !isExt(off) && !isExt(ln) {
+					continue
+				}
+				emit("extreme", true, (&W{}).Int(1).Bytes(s).Int(off).Int(ln))
+			}
+			// the exact edge of the overflow of start + length
+			if !isExt(off) {
+				start := off
+				if off < 0 {
+					start = n + off
+				}
+				for d := -2; d <= 2; d++ {
+					if ln := c15MaxInt - start + d; start >= 0 && ln > 0 && ln <= c15MaxInt && (d <= 0 || start > 0) {
+						g.Count("Substr-start+length-around-MaxInt")
+						emit("extreme", true, (&W{}).Int(1).Bytes(s).Int(off).Int(ln))
+					}
+				}
+			}
+		}
+		for _, idx := range ext {
+			emit("extreme", true, (&W{}).Int(2).Bytes(s).Int(idx))
+		}
+		for _, size := range ext {
+			if size > n {
+				continue
+			}
+			for _, t := range []string{"-", "é", "ab"} {
+				for _, fn := range []int{3, 4, 5} {
+					emit("extreme", true, (&W{}).Int(fn).Bytes(s).Int(size).Bytes(t))
+				}
+			}
+		}
+	}
+
+	// --- large: strings of 100..5000 bytes, tokens of 3..40 bytes, paddings of thousands of bytes ---
+	ascii := []string{"a", "b", "q", "z", "A", "B", "Q", "Z", "0", "7", "9"}
+	seps := []string{" ", "-", "_", "&", "  ", "_-", " & "}
+	r2 := []string{"é", "É", "ö", "Ö", "ß", "ÿ", "µ", "\u03c3", "\u03a3", "\u0416", "\u0436", "\u017f", "\u0131", "\u0130", "\u023a", "\u00a0"}
+	r3 := []string{"€", "世", "\u212a", "\u2c65", "\uff21", "\uff41", "\u1e9e", "\u1e00", "\u1e01", "\u2003", "\ufffd"}
+	r4 := []string{"\U0001F600", "\U00010400", "\U00010428", "\U0001F680"}
+	bad := []string{"\xff", "\xc3", "\x80", "\xc0", "\xf5"}
+	// a string of about nbytes bytes from the pools (weights: how often each pool is drawn)
+	bigStr := func(nbytes int, pools ...[]string) string {
+		var sb strings.Builder
+		for sb.Len() < nbytes {
+			p := pools[g.Rng.Intn(len(pools))]
+			sb.WriteString(p[g.Rng.Intn(len(p))])
+		}
+		return sb.String()
+	}
+	sizes := []int{100, 127, 128, 255, 256, 257, 300, 511, 512, 513, 1000, 1023, 1024, 1025, 2047, 2048, 2049, 3000, 4095, 4096, 4097, 5000}
+	pickSize := func(i int) int {
+		if i < 4 {
+			return 100 + i // the first cases of the stream end up as samples in the evidence: keep them short
+		}
+		return sizes[g.Rng.Intn(len(sizes))]
+	}
+	// a token of 3..40 bytes; every other one overlaps itself (period shorter than the token)
+	bigTok := func() string {
+		k := 3 + g.Rng.Intn(38)
+		var t string
+		switch g.Rng.Intn(4) {
+		case 0: // periodic: self-overlapping with a long border
+			unit := bigStr(1+g.Rng.Intn(4), ascii, r2, []string{"-", "'", "*"})
+			t = strings.Repeat(unit, k/len(unit)+1)
+			for len(t) > k {
+				t = t[:len(t)-1]
+			}
+			if len(t) < 3 {
+				t = "aaa"
+			}
+		case 1: // one repeated byte
+			t = strings.Repeat(string("a-*'"[g.Rng.Intn(4)]), k)
+		default:
+			t = bigStr(k, ascii, r2, r3, r4, []string{"-", "'", "*", "<", ">"})
+		}
+		return t
+	}
+	nl := g.Pick(32, 300)
+	for i := 0; i < nl; i++ {
+		nb := pickSize(i)
+		// Substr, SplitAtIndex: byte arithmetic on a long string
+		{
+			s := bigStr(nb, ascii, r2, r3, r4, bad)
+			n := len(s)
+			edge := []int{0, 1, -1, n - 1, n, n + 1, -n, -n + 1, -n - 1, n / 2, -n / 2, 255, 256, 4095, 4096, g.Rng.Intn(n), -g.Rng.Intn(n)}
+			for j := 0; j < 6; j++ {
+				emit("large", true, (&W{}).Int(1).Bytes(s).Int(edge[g.Rng.Intn(len(edge))]).Int(edge[g.Rng.Intn(len(edge))]))
+			}
+			emit("large", true, (&W{}).Int(1).Bytes(s).Int(edge[g.Rng.Intn(len(edge))]).Int(c15MaxInt-g.Rng.Intn(n+2)))
+			for j := 0; j < 3; j++ {
+				emit("large", true, (&W{}).Int(2).Bytes(s).Int(edge[g.Rng.Intn(len(edge))]))
+			}
+		}
+		// Pad*: thousands of bytes of padding from tokens of 3..40 bytes
+		{
+			s := bigStr(g.Rng.Intn(300), ascii, r2, r4)
+			t := bigTok()
+			size := len(s) + 1000 + g.Rng.Intn(5000)
+			for _, fn := range []int{3, 4, 5} {
+				g.Count("Pad-thousands-of-bytes")
+				emit("large", true, (&W{}).Int(fn).Bytes(s).Int(size).Bytes(t))
+			}
+			// a short token repeated thousands of times
+			t3 := bigStr(3+g.Rng.Intn(3), ascii, r2, []string{"-", "'", "*"})
+			size = len(s) + 3000 + g.Rng.Intn(6000)
+			for _, fn := range []int{3, 4, 5} {
+				g.Count("Pad-thousands-of-repeats")
+				emit("large", true, (&W{}).Int(fn).Bytes(s).Int(size).Bytes(t3))
+			}
+			// and a long string that is long enough, or one byte short
+			s2 := bigStr(nb, ascii, r2)
+			emit("large", true, (&W{}).Int(3+g.Rng.Intn(3)).Bytes(s2).Int(len(s2)+g.Rng.Intn(3)-1).Bytes(t))
+		}
+		// Wrap / Unwrap / Unwrap(Wrap) / Index+LastIndex with long tokens
+		{
+			t := bigTok()
+			m := bigStr(nb, ascii, r2, r3, bad)
+			var s string
+			// a near miss of the token: one byte changed at its far end / near end / middle
+			miss := func(pos int) string {
+				b := []byte(t)
+				b[pos] ^= 1
+				return string(b)
+			}
+			switch g.Rng.Intn(9) {
+			case 0:
+				s = t + m + t
+			case 1:
+				s = t + m
+			case 2:
+				s = m + t
+			case 6:
+				s = miss(len(t)-1) + m + t
+			case 7:
+				s = t + m + miss(0)
+			case 8:
+				s = t + m + miss(len(t)/2)
+			case 3: // starts and ends with t through overlapping occurrences only (when t has a border)
+				s = t + t[len(t)-1-g.Rng.Intn(len(t)-1):]
+			case 4:
+				s = t + t + m[:len(m)/2] + t + m[len(m)/2:] + t
+			default:
+				s = m[:len(m)/2] + t + m[len(m)/2:]
+			}
+			if len(s) > len(t) && len(s) < 2*len(t) && strings.HasPrefix(s, t) && strings.HasSuffix(s, t) {
+				g.Count("token-overlaps-itself-at-both-ends")
+			}
+			emit("large", true, (&W{}).Int(7).Bytes(s).Bytes(t))
+			emit("large", true, (&W{}).Int(26).Bytes(s).Bytes(t))
+			emit("large", true, (&W{}).Int(18).Bytes(m).Bytes(t))
+			emit("large", true, (&W{}).Int(6).Bytes(m).Bytes(t))
+		}
+		// rune-wise functions: 1..4-byte runes, shifted by 0..3 bytes so that multi-byte runes straddle
+		// every power-of-two offset in some case; stray bytes in one case out of three
+		{
+			pools := [][]string{ascii, r2, r3, r4, r4}
+			if i%3 == 2 {
+				pools = append(pools, bad)
+			}
+			nbr := nb
+			if nbr > 2600 {
+				nbr = 2600 // the model's ReverseStr is the quadratic swap loop on a list
+			}
+			s := strings.Repeat("x", i%4) + bigStr(nbr, pools...)
+			for _, fn := range []int{9, 10, 11, 12, 16} {
+				emit("large", true, (&W{}).Int(fn).Bytes(s))
+			}
+			s4 := strings.Repeat("y", i%4) + bigStr(nbr, r4)
+			emit("large", true, (&W{}).Int(9).Bytes(s4))
+			sw := s
+			if len(sw) > 700 {
+				sw = sw[:700]
+			}
+			emit("large", true, (&W{}).Int(8).Bytes(sw).Bytes(bigTok()))
+			emit("large", true, (&W{}).Int(8).Bytes(s4).Bytes("é"))
+		}
+		// case styles: many words, long words, many lower/upper transitions inside one word
+		{
+			var sb strings.Builder
+			switch i % 3 {
+			case 0: // many short words
+				for sb.Len() < nb {
+					sb.WriteString(bigStr(1+g.Rng.Intn(6), ascii))
+					sb.WriteString(seps[g.Rng.Intn(len(seps))])
+				}
+			case 1: // one long word, hundreds of transitions
+				nw := nb
+				if nw > 2048 {
+					nw = 2048 // the model re-copies its output buffer at every transition
+				}
+				sb.WriteString(bigStr(nw, []string{"a", "b", "z", "A", "B", "Z", "0", "9"}))
+			default: // long words
+				for sb.Len() < nb {
+					sb.WriteString(bigStr(200+g.Rng.Intn(400), ascii))
+					sb.WriteString(seps[g.Rng.Intn(len(seps))])
+				}
+			}
+			s := sb.String()
+			g.Count("case-style-large-input")
+			for _, fn := range []int{13, 14, 15} {
+				emit("large", true, (&W{}).Int(fn).Bytes(s))
+			}
+			if i%2 == 0 {
+				emit("large", true, (&W{}).Int(19).Bytes(s))
+			}
+			emit("large", true, (&W{}).Int(22+g.Rng.Intn(4)).Bytes(s))
+		}
 	}
 
 	// --- malformed: empty tokens, far-out-of-window numbers, bytes that are not UTF-8 ---
@@ -387,6 +747,7 @@ func genC15(g *Gen) {
 		emit("malformed", true, (&W{}).Int(7).Bytes(s).Bytes(""))
 		emit("malformed", true, (&W{}).Int(8).Bytes(s).Bytes(""))
 		emit("malformed", true, (&W{}).Int(18).Bytes(s).Bytes(""))
+		emit("malformed", true, (&W{}).Int(26).Bytes(s).Bytes(""))
 		for size := n - 1; size <= n+3; size++ {
 			for _, fn := range []int{3, 4, 5} {
 				emit("malformed", true, (&W{}).Int(fn).Bytes(s).Int(size).Bytes(""))
@@ -405,7 +766,7 @@ func genC15(g *Gen) {
 		}
 	}
 	for _, s := range []string{"\xc3", "a\xc3", "\xa9", "\xc3\xc3\xa9", "\xe2\x82", "\xf0\x9f\x98", "\xed\xa0\x80", "\xc0\xaf", "\xf4\x90\x80\x80"} {
-		for _, fn := range []int{9, 10, 11, 12, 13, 14, 15, 16} {
+		for _, fn := range []int{9, 10, 11, 12, 13, 14, 15, 16, 22, 23, 24, 25} {
 			emit("malformed", true, (&W{}).Int(fn).Bytes(s))
 		}
 		for idx := -1; idx <= len(s); idx++ {
@@ -419,5 +780,5 @@ func genC15(g *Gen) {
 
 func init() {
 	register(&Prop{ID: "C15", Exec: execC15, Gen: genC15, Describe: describeC15,
-		Rule: "exhaustive: every string of <= 4 (thorough 5) symbols over {a,B,1,space,-,_,é(2 bytes)} x {SplitAtIndex with every index in [-3,len+3]; Wrap/Unwrap/WrapAllRune/Unwrap(Wrap) with every token of 1-2 symbols over {a,-,é}; ReverseStr, ToLower, ToUpper, Capitalize, range loop, CamelCase, SnakeCase, KebabCase, Snake/Kebab twice}; every string of <= 4 (5) symbols over {a,-,é} x {Substr with every (offset,length) in [-len-3,len+3]^2; Pad/PadLeft/PadRight with every size in [len-3,len+3] and every token}; the case styles again over {a,B,1,space,-,_,&} and {a,B,ö,Ö,space,_}; all 1- and 2-byte strings through the range loop; the case table against package unicode on U+0000..U+00FF and the caseless runes used; string([]rune) at every encoding boundary. random: 6000 (60000) calls on strings of up to 20 items drawn from words/separators/Latin-1 letters/white space and from invalid or truncated UTF-8 (all inside the case table's domain), wrapped/half-wrapped inputs for Unwrap. malformed: empty tokens, numbers far outside the window, truncated/overlong/surrogate byte sequences. non-trivial = non-empty text for Substr/Wrap, index inside the string for SplitAtIndex, size > len for Pad*, token occurring in the text for Unwrap, a multi-byte rune or >= 2 symbols for the rune-wise functions, >= 2 symbols for the case styles; distinct = distinct wire input"})
+		Rule: "exhaustive: every string of <= 5 (thorough 6) symbols over {a,B,1,space,-,_,é(2 bytes)} x {ReverseStr, ToLower, ToUpper, Capitalize, range loop, CamelCase, SnakeCase, KebabCase, Snake/Kebab twice}; every such string of <= 4 (5) symbols x {SplitAtIndex with every index in [-3,len+3] (inside runes included); Wrap/Unwrap/WrapAllRune/Unwrap(Wrap) with every token of 1-2 symbols over {a,-,é}}; every string of <= 5 (6) symbols over {a,-,é} x Substr with every (offset,length) in [-len-3,len+3]^2, of <= 4 (5) symbols x Pad/PadLeft/PadRight with every size in [len-3,len+9] and every token; the case styles again over {a,B,1,space,-,_,&} (<= 5 (6)), {z,Z,A,0,9,_} and {a,B,ö,Ö,space,_}; every byte alone and after a through the rune-wise functions; all 1- and 2-byte strings through the range loop; every cased rune of the oracle table (Latin-1 letters, σ Σ ς ſ K İ ı Ⱥ ⱥ Ａ ａ 𐐀 𐐨 Μ μ Ÿ ẞ Ж ж Ḁ ḁ) ALONE and next to ASCII through ReverseStr/ToLower/ToUpper/Capitalize/the case styles; the case table against package unicode on U+0000..U+00FF and every other rune the generators use; string([]rune) at every encoding boundary; self-overlapping tokens up to 7 bytes against every prefix of token^4 through Unwrap; the hand-written scanners of the model against the Go library itself (regexp [-_&]+ ReplaceAllString, regexp [a-zö][A-ZÖ]+ FindAllStringIndex, strings.Split, strings.TrimSpace, strings.Index/LastIndex) on all strings of <= 4 (5) symbols over small alphabets with stray bytes. random: 6000 (60000) calls on strings of up to 20 items drawn from words/separators/Latin-1 and other cased letters/white space and from invalid or truncated UTF-8 (all inside the case table domain), wrapped/half-wrapped inputs for Unwrap. extreme: Substr with offset/length, SplitAtIndex with index, Pad* with size (<= len only: a giant size would be allocated) in {MaxInt-k, MinInt+k (k<=5), +-2^31, +-2^32, +-2^53, +-2^62, each +-1} x small values, and start+length within 2 of MaxInt. large: 32 (300) rounds of strings of 100..5000 bytes (1- to 4-byte runes shifted by 0..3 bytes, stray bytes), tokens of 3..40 bytes (half of them self-overlapping), paddings of 1000..9000 bytes, wrapped / near-miss / overlapping inputs for Unwrap, texts of hundreds of words, words of hundreds of letters and of hundreds of lower/upper transitions for the case styles. malformed: empty tokens, numbers far outside the window, truncated/overlong/surrogate byte sequences. non-trivial = non-empty text for Substr/Wrap, index inside the string for SplitAtIndex, size > len for Pad*, token occurring in the text for Unwrap, a multi-byte rune or >= 2 symbols for the rune-wise functions, >= 2 symbols for the case styles, every extreme/large/random/malformed case; distinct = distinct wire input"})
 }
